@@ -18,6 +18,8 @@ RULE = (
     "every case is compared with its own FIFO exactly-once reference run. Plus exhaustive branching: from cut points "
     "of the FIFO run of 12 small workflows, EVERY choice (which deliverable row next x ack / withhold) to depth 3 (quick) "
     "/ 6 (thorough), database copied at each choice point, states pruned on a canonical hash, FIFO drain below the bound. "
+    "Plus redelivery to a different worker: 2-4 worker threads interleaved at SQL-statement granularity, messages forgotten "
+    "once (no ack, lock lapses) and picked up by whichever thread polls next, compared with the FIFO reference. "
     "Non-trivial = the delivered sequence of "
     "(message type, target) differs from the reference's; distinct = by hash of that sequence."
 )
@@ -26,7 +28,7 @@ ASSUMPTIONS = [
     "virtual time: delayed rows are delivered only when no undelayed row is pending (no wait budget is exhausted artificially)",
     "duplicates arise only the way the queue produces them (ack lost / lock lapsed), never by cloning rows",
 ]
-MIN_OBS = {"redeliveries": {"quick": 50, "thorough": 500}, "reordered_runs": {"quick": 50, "thorough": 500}}
+MIN_OBS = {"redeliveries": {"quick": 50, "thorough": 500}, "reordered_runs": {"quick": 50, "thorough": 500}, "interleaved_runs": {"quick": 60, "thorough": 800}}
 TIMEOUT = {"quick": 600, "thorough": 3000}
 
 HOLD_TYPES = ["StartStage", "CompleteStage", "CompleteTask", "RunTask", "StartTask", "JumpToStage", "CompleteWorkflow"]
@@ -55,6 +57,8 @@ def gen_cases(tier: str, seed: int) -> list[dict]:
     for i in range(12):
         for cut in ((0, 6) if tier == "quick" else (0, 4, 8, 12)):
             cases.append({"kind": "exhaustive", "spec_i": i, "cut": cut, "depth": depth, "seed": seed})
+    for i in range(80 if tier == "quick" else 1000):
+        cases.append({"kind": "race", "spec_i": i, "seed": seed})
     return cases
 
 
@@ -281,9 +285,57 @@ def _exhaustive(case: dict) -> dict:
     return {"violations": uniq, "obs": dict(obs), "keys": sorted(keys), "sample": {"spec": spec["name"], "cut": case["cut"], "depth": depth0, "choice_points": obs.get("choice_points", 0), "leaves": obs.get("leaf_runs", 0), "pruned": obs.get("pruned_states", 0)}}
 
 
+def _race(case: dict) -> dict:
+    """Redelivery 'to a different worker': 2-4 worker threads interleaved at SQL-statement granularity,
+    each message forgotten once with probability p (no ack, the lock lapses at once) so it comes back to
+    whichever thread polls next while the others keep working; compared with the FIFO exactly-once reference."""
+    from .. import interleave as il
+
+    spec = _spec_for(case["spec_i"] % 60, case["seed"])
+    rng = random.Random(case["seed"] * 52361 + case["spec_i"])
+    ref = delivery_run(spec, order="fifo")
+    forgotten: set = set()
+    p = rng.choice([0.2, 0.5, 1.0])
+
+    def ack_fn(w, msg):
+        if msg.message_id in forgotten or rng.random() > p:
+            return True
+        forgotten.add(msg.message_id)
+        return False
+
+    pol = il.RandomPolicy(rng.randrange(1 << 30), switch_p=rng.choice([0.1, 0.3, 0.5])) if case["spec_i"] % 3 else il.PCT(rng.randrange(1 << 30), d=rng.choice([2, 3, 5]), horizon=rng.choice([400, 1500]))
+    records: list = []
+    run, info = il.run_workers(spec, rng.choice([2, 3, 4]), pol, ack_fn=ack_fn, records=records, max_msgs=900, watchdog=120.0)
+    obs: Counter = Counter({"evaluations": 1})
+    if run is None:
+        obs["scheduler_failed"] += 1
+        return {"violations": [], "obs": dict(obs), "keys": [], "inconclusive": info.get("failed")}
+    obs["interleaved_runs"] += 1
+    obs["redeliveries"] += len(forgotten)
+    obs["reordered_runs"] += 1
+    v = compare_with_reference(spec, ref, run, data=False)
+    v2, o = effect_oracles(spec, run)
+    obs.update({k: n for k, n in o.items() if k != "marked_redeliveries"})
+    v = oracles.attribute(v + [x for x in v2 if "handled-although-marked" not in x["sig"]], run, "C02")
+    wit = oracles.lost_plan_witness(run) if v else None
+    if wit:
+        # known mechanism (DESIGN 10.3 row 10), seen from the outcome side
+        v = [viol("C02/start-lost:plan-commit-lost-optimistic-lock-and-error-swallowed", f"{wit}; symptoms {[x['sig'] for x in v][:4]}")]
+    seen = set()
+    uniq = []
+    for x in v:
+        if x["sig"] not in seen:
+            seen.add(x["sig"])
+            x.update(spec=spec["name"], interleaved=True, trace_hash=info["trace_hash"])
+            uniq.append(x)
+    return {"violations": uniq, "obs": dict(obs), "keys": [f"race:{spec['name']}:{info['trace_hash'][:6]}"]}
+
+
 def run_case(case: dict) -> dict:
     if case.get("kind") == "exhaustive":
         return _exhaustive(case)
+    if case.get("kind") == "race":
+        return _race(case)
     spec = _spec_for(case["spec_i"], case["seed"])
     ref = delivery_run(spec, order="fifo")
     obs: Counter = Counter()
